@@ -332,7 +332,7 @@ def a_get(ev, st, info, args):
         return [(st, ('opaque', 'get with unknown range type'))]
     lo, hi = b
     cond = T.band_bool(T.cmp('Le', lo, hi), T.cmp('Le', hi, n))
-    if is_str:
+    if is_str and not (seq[0] == 'bytes' and all(b < 128 for b in seq[1])):      # every in-range index of an ASCII constant is a char boundary
         for idx in (lo, hi):
             if idx != I(0) and idx != n:
                 cond = T.band_bool(cond, ('call', 'is_char_boundary', (seq, idx)))
@@ -530,6 +530,20 @@ def a_ne(ev, st, info, args):
     return [(st, T.bnot(T.eq(content(args[0]), content(args[1]))))]
 
 
+@ax('<std::option::Option<T> as std::cmp::PartialEq>::eq', '<std::result::Result<T, E> as std::cmp::PartialEq>::eq',
+    note='== on Option / Result compares variants and payloads (payload == by contents for str / slices / integers); total')
+def a_enum_eq(ev, st, info, args):
+    a, b = (ev.deref(x, st) if x[0] == 'ref' else x for x in args[:2])
+    if a[0] == 'adt' and b[0] == 'adt':
+        if a[2] != b[2]:
+            return [(st, T.FALSE)]
+        r = T.TRUE
+        for x, y in zip(a[4], b[4]):
+            r = T.band_bool(r, T.eq(content(x), content(y)))
+        return [(st, r)]
+    return [(st, ('opaque', 'comparison of symbolic Option / Result values'))]
+
+
 @ax('std::cmp::PartialEq::ne', note='the provided != of slices / str / arrays is the negation of their ==; total')
 def a_ne_default(ev, st, info, args):
     t = ty_arg(info, 0, 'targs')
@@ -658,6 +672,12 @@ def sep_set(ev, st, info, pat):
     """separator pattern -> sorted tuple of separator code points, or None"""
     if pat[0] == 'int':
         return (pat[1],)
+    if pat[0] == 'ref':
+        pat = ev.deref(pat, st)
+    if pat[0] == 'arr' and pat[1] and all(x[0] == 'int' for x in pat[1]):
+        return tuple(sorted({x[1] for x in pat[1]}))        # [char; N] / &[char]: any of the listed chars
+    if pat[0] == 'bytes' and 'char' in str(ty_arg(info, 0) or ''):
+        return tuple(sorted(set(pat[1])))
     if pat[0] in ('closure', 'fn'):
         c = ('call', 'anychar', ())
         T.TYPES[c] = 'char'
